@@ -237,12 +237,19 @@ def rule_I11(ctx):
         except Exception:
             return None
     tc = [c for c in own_nodes(fd) if isinstance(c, ast.Call) and norm(c.func) == "RolandFileAllocationTable"]
-    size_arg = _fold11(tc[0].args[1]) if len(tc) == 1 and len(tc[0].args) >= 2 else None
+    from .util import positional_args as _pa11
+    tca = _pa11(ctx, fd._module, tc[0]) if len(tc) == 1 else []
+    size_arg = _fold11(tca[1]) if len(tca) >= 2 else None
     lens = []
     for nm_, vs_ in sd_.items():
         for v_ in vs_:
             if isinstance(v_, ast.BinOp) and isinstance(v_.op, ast.Mult) and isinstance(v_.left, ast.List) and len(v_.left.elts) == 1 and norm(v_.left.elts[0]).startswith("SectorLink("):
                 lens.append(_fold11(v_.right))
+            elif isinstance(v_, ast.ListComp) and len(v_.generators) == 1 and not v_.generators[0].ifs and isinstance(v_.generators[0].iter, ast.Call) \
+                    and norm(v_.generators[0].iter.func) == "range" and len(v_.generators[0].iter.args) == 1 \
+                    and (norm(v_.elt).startswith("SectorLink(") or (isinstance(v_.elt, ast.Name) and len(sd_.get(v_.elt.id, [])) == 1 and norm(sd_[v_.elt.id][0]).startswith("SectorLink("))):
+                # one placeholder link per table entry, written as a comprehension over range(N)
+                lens.append(_fold11(v_.generators[0].iter.args[0]))
     ok = size_arg == 0x10000 and lens and all(x_ == 0x10000 for x_ in lens)
     ctx.ob("I11", tc[0] if tc else fd, "the decoded Roland cluster table has an entry for every 16-bit cluster number (a damaged start cluster is looked up, not out of range)", ok,
            "" if ok else f"table size {size_arg}, link list length(s) {lens}: a start cluster at or beyond the table raises RequestedInvalidSector, which no Roland record loop swallows",
@@ -695,7 +702,13 @@ def rule_I1(ctx):
                     saved = [last] if quiet else saved
                 # address = saved + entry size
                 ev = Evaluator()
-                t = ev.ev(seeks[0].args[0])
+                tgt_ = seeks[0].args[0]
+                if isinstance(tgt_, ast.Name):
+                    # the target computed into a local first (bound once in the handler)
+                    ds_ = [a for a in ast.walk(loop) if isinstance(a, ast.Assign) and len(a.targets) == 1 and norm(a.targets[0]) == tgt_.id]
+                    if len(ds_) == 1:
+                        tgt_ = ds_[0].value
+                t = ev.ev(tgt_)
                 ok = len(saved) == 1 and t == A(norm(saved[0].targets[0])) + A("table_entry_size")
                 det = "" if ok else f"re-seek target `{norm(seeks[0].args[0])}` is not (entry start + entry size)"
                 # the saved address is taken after the table-end probe (which restores the position) and before the parse
